@@ -288,7 +288,13 @@ def case_homog(sp, agg, m):
     G2 = [[t * t * G[i][j] for j in range(m)] for i in range(m)]
     A = make(agg, m)
     torch.manual_seed(0)
-    w = A(gram_only(G))._w._flat()
+    try:
+        w = A(gram_only(G))._w._flat()
+    except torch.GramOnlyRead as e:
+        # the aggregator looked at J otherwise than through its Gramian (C08's subject): the Gram-level run cannot go on.  Whether homogeneity still
+        # holds is left to the real stack, on a generic matrix: A(tJ) against t A(J) (nothing is reported unless it fails there)
+        gen = [[R(2), R(1)], [R(1), R(3)]] if m == 2 else [[R(2)]] if m == 1 else [[R(2), R(1), R(0)], [R(1), R(3), R(1)], [R(0), R(1), R(4)]]
+        return [Ob(f"positively_homogeneous[{agg}]", False, lambda model=None, e=e: dict(kind="homogeneity", agg=agg, params=params_cex(model, agg, m) if model is not None else {}, G=[[str(x.frac()) for x in r] for r in gen], t="3", note=f"Gram-only run stopped: {e}"))]
     _second_run_candidates(list(torch.EVENTS), lambda v: list(v))
     torch.manual_seed(0)
     w2 = A(gram_only(G2))._w._flat()
